@@ -683,6 +683,8 @@ class type_enum(type_base):
             self.enum_i.enums,
             self._int_field_info.is_rand
         )
+        if self._init_val is not None:
+            self.set_val(self._init_val)
         return self._int_field_info.model        
         
     def get_val(self):
